@@ -174,7 +174,7 @@ PROPS = {
         'note': 'Sequentially consistent executions of the accesses the compiler kept (gcc 12 -O2 and -O0); weak-memory reorderings are not modelled (every atomic operation of memory.c is seq_cst today; the number of weaker ones executed by scheduled threads is counted in the evidence). At most 4 threads. The harness\'s own probes of the managed memory are liveness checks, not race participants.',
         'technique': 'stateless depth-first exploration of all thread interleavings of the real code under a controlled scheduler (TSan compiler ABI with own runtime), visited-state pruning on real continuations',
         'jobs': [{'world': 'c06', 'src': 'worlds/c06_world.c', 'lib': ['memory.c'], 'san': ['-g', '-fsanitize=thread'], 'wsan': ['-g'], 'extra_src': ['engine/sched.c'],
-                  'link': ['-Wl,--wrap=malloc,--wrap=free,--wrap=abort,--wrap=sched_yield'], 'flavours': RELDBG_ALWAYS}],
+                  'link': ['-Wl,--wrap=malloc,--wrap=calloc,--wrap=realloc,--wrap=free,--wrap=abort,--wrap=sched_yield'], 'flavours': RELDBG_ALWAYS}],
         'rule': 'every scenario explored to exhaustion; states = distinct scheduler states (visited set), transitions = executed steps out of new states; a state is counted non-trivial always (every state is a multi-thread scheduling choice point)',
         'assumptions': ['sequential consistency (SC interleavings only)', 'at most 4 threads, programs of at most 3 operations', 'scheduling points at every instrumented access to library-allocated memory; accesses to a thread\'s own pointer objects are thread-private'],
         'deadline': {'quick': 240, 'thorough': 3000},
